@@ -113,7 +113,7 @@ def merge_results(results):
 # Hypothesis driver
 
 
-def hyp_search(strategy, body, *, seed, max_examples, shrink_budget_s=45.0, case_key=repr):
+def hyp_search(strategy, body, *, seed, max_examples, shrink_budget_s=45.0, case_key=repr, case_cpu_s=None):
     """Run `body(case)` over `strategy`.
 
     Returns (n_calls, violation_or_None, harness_error_or_None).  `body` may raise
@@ -151,7 +151,16 @@ def hyp_search(strategy, body, *, seed, max_examples, shrink_budget_s=45.0, case
                 raise st["failed"][key]
             return
         try:
-            body(case)
+            if case_cpu_s:
+                try:
+                    with cpu_guard(case_cpu_s):
+                        body(case)
+                except CaseHang as h:
+                    raise PropertyViolation(
+                        "hang", f"the case did not finish: {h} (cases of this check normally take milliseconds)",
+                        extra={"bucket": "hang"})
+            else:
+                body(case)
         except PropertyViolation as v:
             if v.case is None:
                 v.case = case
@@ -184,6 +193,33 @@ def hyp_search(strategy, body, *, seed, max_examples, shrink_budget_s=45.0, case
             return st["n"], st["best"], st["harness"]
         return st["n"], None, "".join(traceback.format_exception(type(e), e, e.__traceback__))
     return st["n"], None, st["harness"]
+
+
+class CaseHang(BaseException):
+    pass
+
+
+import contextlib as _contextlib
+
+
+@_contextlib.contextmanager
+def cpu_guard(seconds=30.0):
+    """Raise CaseHang inside the guarded block once it has used `seconds` of CPU time (and
+    again every second after that: code under test may swallow one exception).  For checks
+    whose cases normally take milliseconds: a mutated tree must not make a shard spin for ever.
+    Not nestable with vlib.prorun.time_limit (same timer)."""
+    import signal
+
+    def handler(sig, frame):
+        raise CaseHang(f"no result within {seconds:g} s of CPU time")
+
+    old = signal.signal(signal.SIGPROF, handler)
+    signal.setitimer(signal.ITIMER_PROF, seconds, 1.0)
+    try:
+        yield
+    finally:
+        signal.setitimer(signal.ITIMER_PROF, 0)
+        signal.signal(signal.SIGPROF, old)
 
 
 def hyp_stateful(machine_cls, *, seed, max_examples, step_count, shrink_budget_s=60.0):
